@@ -54,6 +54,7 @@ class Layout:
         self.attrs = {1: {}, 0: {}}   # parsebitfield -> ordered dict name -> value
         self.raw = {}                 # rendered name -> raw integer (for keyword round trips)
         self.fields = []              # (rendered name, type, scale, offset, raw bytes, kind)
+        self.names = {}               # rendered name -> (base, idx)
 
     def setattr(self, name, val, views=(0, 1)):
         for v in views:
@@ -82,6 +83,7 @@ def decode_plain(t, b):
 def gen_attr(rng, lay, name, t, scale, idx, forced=None, total_len=None):
     """lay out one attribute; `forced` = raw unsigned integer value to use"""
     rn = name + suffix(idx)
+    lay.names[rn] = (name, list(idx))
     if t == "CH":
         b = rand_bytes(rng, rng.choice([0, 1, 5, 30]))
     else:
@@ -136,8 +138,10 @@ def gen_bits(rng, lay, name, t, flags, idx, forced_flags=None):
     lay.fields.append((name + suffix(idx), t, None, len(lay.payload), b, "bits"))
     lay.payload += b
     for k, v, w in vals:
+        lay.names[k + suffix(idx)] = (k, list(idx))
         if k[0:8] != "reserved":
             lay.setattr(k + suffix(idx), v, views=(1,))
+    lay.names[name + suffix(idx)] = (name, list(idx))
     lay.setattr(name + suffix(idx), b, views=(0,))
 
 
@@ -189,10 +193,56 @@ def find_width(defn, name):
     return None
 
 
+def unknown_key(rng):
+    """an undocumented key id with a valid size code in its top hex digit"""
+    known = set(v[0] for v in ubc.UBX_CONFIG_DATABASE.values())
+    while True:
+        code = rng.choice([1, 2, 3, 4, 5])
+        k = (code << 28) | rng.getrandbits(28)
+        if k not in known:
+            return k
+
+
+def cfgval_layout(rng, ent, maxrep=3):
+    """CFG-VALGET (GET) / CFG-VALSET (SET): header attributes, then distinct key/value items"""
+    d = ent["defn"]
+    lay = Layout()
+    hdr = {k: v for k, v in d.items() if not (isinstance(v, tuple) and v[0] not in BITTYPES)}
+    gen_items(rng, lay, hdr, [], {}, False)
+    names = list(ubc.UBX_CONFIG_DATABASE)
+    n = rng.choice([0, 1, 2, 3, maxrep])
+    used = set()
+    lay.cfgitems = []
+    for _ in range(n):
+        if rng.random() < 0.25:
+            kid = unknown_key(rng)
+            ty = "X%03d" % ubc.UBX_CONFIG_STORSIZE[kid >> 28]
+            name = "CFG_" + hex(kid)
+        else:
+            name = rng.choice(names)
+            kid, ty = ubc.UBX_CONFIG_DATABASE[name]
+        if kid in used:
+            continue
+        used.add(kid)
+        v = cfg_value(rng, ty)
+        lay.payload += kid.to_bytes(4, "little") + cfg_encode(ty, v)
+        # first name registered for the id is what the parser reports
+        rep = next(k for k, x in ubc.UBX_CONFIG_DATABASE.items() if x[0] == kid) if name[:6] != "CFG_0x" else name
+        lay.setattr(rep, v)
+        lay.cfgitems.append((name, kid, ty, v))
+    return lay
+
+
+def is_cfgval(ent):
+    return ent["cls"] == b"\x06" and ((ent["id"] == b"\x8b" and ent["mode"] == GET) or (ent["id"] == b"\x8a" and ent["mode"] == SET))
+
+
 def layout(rng, ent, maxrep=3, pin=True):
     """a random value tree for catalogue entry `ent`, laid out as payload bytes.
     returns Layout or None when the definition's counts cannot be expressed."""
     d = ent["defn"]
+    if is_cfgval(ent):
+        return cfgval_layout(rng, ent, maxrep)
     counts = {}
     for src in count_sources(d):
         w = find_width(d, src)
